@@ -2,7 +2,7 @@
 """Regenerates MANIFEST.json from the table below (kept in one place so it stays valid)."""
 import json, subprocess
 
-HOOK_COMMITS = ['01ad918']
+HOOK_COMMITS = ['01ad918', 'e112e30']
 
 # id -> (category, technique, level text, level note, design ref)
 CHECKS = {
